@@ -1748,6 +1748,42 @@ def _wrap_ctor_expr(val: ast.expr, fi: FunctionInfo) -> str | None:
     return None
 
 
+def _explicit_tests(fi: FunctionInfo, name: str) -> list[ast.If]:
+    return [n for n in fi.local_nodes() if isinstance(n, ast.If) and isinstance(n.test, ast.Name) and n.test.id == name]
+
+
+def _text_builder(corpus: Corpus, pw: FunctionInfo, wrap_p: str, tok_p: str, exp_p: str = "explicit"):
+    """Where the inner (text) node of a link is chosen: ``_process_wrap_node`` itself, or ONE private helper it
+    calls with its own ``explicit`` flag and whose result is the node appended to the wrap node.
+
+    Returns (function, explicit name, token name, wrap name or None, helper call or None)."""
+    if _explicit_tests(pw, exp_p):
+        return pw, exp_p, tok_p, wrap_p, None
+    cands = []
+    for c in pw.local_nodes():
+        if isinstance(c, ast.Call) and self_call_name(c):
+            callee = self_callee(corpus, pw, c)
+            if callee is None or callee.fq == pw.fq:
+                continue
+            ep = param_of_arg(callee, c, exp_p)
+            if ep and _explicit_tests(callee, ep):
+                cands.append((c, callee, ep))
+    if len(cands) != 1:
+        return None
+    call, callee, ep = cands[0]
+    for nm in (exp_p, tok_p, wrap_p):
+        if assignments_to(pw, nm):
+            raise Unsupported(f"_process_wrap_node rebinds `{nm}` before the text helper runs")
+    tp = param_of_arg(callee, call, tok_p)
+    if tp is None:
+        raise Unsupported(f"{callee.qualname}: the token is not passed on as a bare name")
+    wp = param_of_arg(callee, call, wrap_p)
+    for nm in (ep, tp, wp):
+        if nm and assignments_to(callee, nm):
+            raise Unsupported(f"{callee.qualname} rebinds its parameter `{nm}`")
+    return callee, ep, tp, wp, call
+
+
 @rule("C12.R1")
 def r1_classification_totality(corpus: Corpus, rep: Report, tier: str):
     rep.rule("C12.R1", "every path of the Sphinx link handlers (and the dispatcher) hands the link to exactly one sink; the wrap node is fresh; explicit text is rendered beneath it")
@@ -1894,23 +1930,79 @@ def r1_classification_totality(corpus: Corpus, rep: Report, tier: str):
 
     _count_rule(rep, "C12.R1", pw, w_attach, ENTRY, "wrap node appended to current_node once", "the wrap node is not attached to the tree on a path", "the wrap node is attached twice", "wrap attached once")
     _count_rule(rep, "C12.R1", pw, w_inner, ENTRY, "inner node appended to the wrap node once", "the wrap node gets no inner (text) node on a path", "two inner nodes", "inner appended once")
-    ifs = [n for n in pw.local_nodes() if isinstance(n, ast.If) and isinstance(n.test, ast.Name) and n.test.id == "explicit"]
+    tb = _text_builder(corpus, pw, wrap_p, tok_p)
+    if tb is None:
+        raise Unsupported("_process_wrap_node: expected one `if explicit:` test")
+    tf, t_exp, t_tok, t_wrap, hcall = tb
+    ifs = _explicit_tests(tf, t_exp)
     if len(ifs) != 1:
         raise Unsupported("_process_wrap_node: expected one `if explicit:` test")
-    _count_rule(rep, "C12.R1", pw, w_children, ("T", ifs[0]), "explicit text: children rendered once", "explicit link text is not rendered (render_children(token) missing on the explicit branch): nested markup lost", "children rendered twice", "explicit text rendered")
-    _count_rule(rep, "C12.R1", pw, w_children, ("F", ifs[0]), "implicit text: children not rendered", "", "children of an implicit-text link (autolink) are rendered as text", "implicit text not rendered", want={0})
+
+    def t_children(n):
+        return sum(1 for c in node_calls(n) if self_call_name(c) == "render_children" and c.args and isinstance(c.args[0], ast.Name) and c.args[0].id == t_tok) if isinstance(n, ast.AST) else 0
+
+    result_is_appended = True
+    if hcall is not None:
+        # the choice lives in a helper: it runs once per link, its result is the node appended to the wrap node, nothing
+        # else renders the children, and the helper itself neither attaches nor fills the wrap node
+        rep.saw_function(tf.fq)
+
+        def w_helper(n):
+            return sum(1 for c in node_calls(n) if self_call_name(c) == tf.name) if isinstance(n, ast.AST) else 0
+
+        _count_rule(rep, "C12.R1", pw, w_helper, ENTRY, f"{tf.name} runs once", "the inner (text) node is not built on a path", "the inner (text) node is built twice (children rendered twice)", "inner appended once|text helper runs once")
+        _count_rule(rep, "C12.R1", pw, w_children, ENTRY, "children rendered by the text helper only", "", "the children are also rendered outside the text helper", "explicit text rendered|only in the text helper", want={0})
+        par = parent(hcall)
+        result_is_appended = isinstance(par, ast.Call) and isinstance(par.func, ast.Attribute) and par.func.attr == "append" and isinstance(par.func.value, ast.Name) and par.func.value.id == wrap_p and par.args and par.args[0] is hcall
+        if not result_is_appended and isinstance(par, ast.Assign) and len(par.targets) == 1 and isinstance(par.targets[0], ast.Name):
+            rn = par.targets[0].id
+            result_is_appended = len(assignments_to(pw, rn)) == 1 and any(
+                isinstance(c, ast.Call) and isinstance(c.func, ast.Attribute) and c.func.attr == "append" and isinstance(c.func.value, ast.Name) and c.func.value.id == wrap_p and c.args and isinstance(c.args[0], ast.Name) and c.args[0].id == rn
+                for c in pw.local_nodes()
+            )
+        if t_wrap:
+
+            def h_touch(n):
+                if not isinstance(n, ast.AST):
+                    return 0
+                return sum(
+                    1
+                    for c in node_calls(n)
+                    if isinstance(c.func, ast.Attribute)
+                    and c.func.attr in ("append", "extend")
+                    and ((isinstance(c.func.value, ast.Name) and c.func.value.id == t_wrap) or (unparse(c.func) == "self.current_node.append" and c.args and isinstance(c.args[0], ast.Name) and c.args[0].id == t_wrap))
+                )
+
+            _count_rule(rep, "C12.R1", tf, h_touch, ENTRY, "the text helper leaves the wrap node alone", "", "the text helper also attaches / fills the wrap node (attached or filled twice)", "inner appended once|helper does not touch the wrap node", want={0})
+        hcfg = get_cfg(tf)
+        for stop in hcfg.pred.get(EXIT, []):
+            k = f"{tf.fq}|inner appended once|exit {_stop_key(hcfg, stop)} returns a node"
+            site = tf.module.site(stop[1] if isinstance(stop, tuple) else stop)
+            if isinstance(stop, ast.Return) and stop.value is not None and not (isinstance(stop.value, ast.Constant) and stop.value.value is None):
+                rep.ok("C12.R1", k, site)
+            else:
+                rep.violation("C12.R1", k, site, "the text helper ends without returning a node: the wrap node gets no inner (text) node on this path")
+    _count_rule(rep, "C12.R1", tf, t_children, ("T", ifs[0]), "explicit text: children rendered once", "explicit link text is not rendered (render_children(token) missing on the explicit branch): nested markup lost", "children rendered twice", "explicit text rendered")
+    _count_rule(rep, "C12.R1", tf, t_children, ("F", ifs[0]), "implicit text: children not rendered", "", "children of an implicit-text link (autolink) are rendered as text", "implicit text not rendered", want={0})
     # the children are rendered beneath the inner node that is then appended
-    withs = [n for n in pw.local_nodes() if isinstance(n, ast.With) and any(w_children(s) for s in n.body)]
-    k = f"{pw.fq}|children rendered beneath the inner node"
+    withs = [n for n in tf.local_nodes() if isinstance(n, ast.With) and any(t_children(s) for s in n.body)]
+    k = f"{tf.fq}|children rendered beneath the inner node"
     if len(withs) == 1 and isinstance(withs[0].items[0].context_expr, ast.Call) and self_call_name(withs[0].items[0].context_expr) == "current_node_context":
         ctx = withs[0].items[0].context_expr
         inner = ctx.args[0] if ctx.args else None
-        appended = [c.args[0] for n in pw.local_nodes() if isinstance(n, ast.Call) for c in [n] if isinstance(c.func, ast.Attribute) and c.func.attr == "append" and isinstance(c.func.value, ast.Name) and c.func.value.id == wrap_p and c.args]
-        if isinstance(inner, ast.Name) and any(isinstance(a, ast.Name) and a.id == inner.id for a in appended):
-            rep.ok("C12.R1", k, pw.module.site(withs[0]))
+        if hcall is None:
+            appended = [c.args[0] for n in pw.local_nodes() if isinstance(n, ast.Call) for c in [n] if isinstance(c.func, ast.Attribute) and c.func.attr == "append" and isinstance(c.func.value, ast.Name) and c.func.value.id == wrap_p and c.args]
+            same = isinstance(inner, ast.Name) and any(isinstance(a, ast.Name) and a.id == inner.id for a in appended)
         else:
-            rep.violation("C12.R1", k, pw.module.site(withs[0]), "the node the children are rendered into is not the node appended to the wrap node: explicit text ends up elsewhere")
-    elif not any(w_children(n) for n in cfg.nodes):
+            # every return that can follow the rendering hands back that very node, and the caller appends the result
+            tcfg = get_cfg(tf)
+            rets = [n for n in tcfg.reachable_from(withs[0]) if isinstance(n, ast.Return)]
+            same = isinstance(inner, ast.Name) and bool(rets) and result_is_appended and all(isinstance(r.value, ast.Name) and r.value.id == inner.id for r in rets)
+        if same:
+            rep.ok("C12.R1", k, tf.module.site(withs[0]))
+        else:
+            rep.violation("C12.R1", k, tf.module.site(withs[0]), "the node the children are rendered into is not the node appended to the wrap node: explicit text ends up elsewhere")
+    elif not any(t_children(n) for n in get_cfg(tf).nodes):
         pass  # no rendering of children at all: reported by the count obligation above
     else:
         rep.error("C12.R1", "_process_wrap_node: `with self.current_node_context(inner): self.render_children(token)` not found")
@@ -3867,7 +3959,11 @@ def mutants(corpus: Corpus):
     else:
         add("c12-project-missing-doc-link-dropped", "C12.R1", sx, ret, "return None", expect="render_link_project")
     f = sx.func("SphinxRenderer._process_wrap_node")
-    st = _stmt_of(f, lambda n: isinstance(n, ast.Expr) and unparse(n.value).startswith("self.render_children("))
+    try:  # the explicit text may be rendered by the private helper that builds the inner node
+        tb = _text_builder(corpus, f, f.params[1], f.params[2]) if len(f.params) > 2 else None
+    except Unsupported:
+        tb = None
+    st = _stmt_of(tb[0] if tb else f, lambda n: isinstance(n, ast.Expr) and unparse(n.value).startswith("self.render_children("))
     add("c12-explicit-text-not-rendered", "C12.R1", sx, st, "pass", expect="explicit text rendered")
     st = _stmt_of(f, lambda n: isinstance(n, ast.Expr) and unparse(n.value).startswith("self.current_node.append("))
     add("c12-wrap-not-attached", "C12.R1", sx, st, "pass", expect="wrap attached once")
